@@ -7,8 +7,10 @@ import (
 	"os"
 	"os/exec"
 	"path/filepath"
+	"runtime"
 	"strings"
 	"syscall"
+	"time"
 
 	log "github.com/go-spring/log"
 )
@@ -150,5 +152,108 @@ func init() {
 				v = append(v, Violation{Clause: "partial-line", Key: key, Detail: fmt.Sprintf("file ends with a partial line: %q", got)})
 			}
 			return fmt.Sprintf("%d lines", strings.Count(got, "\n")), v, acked + 1
+		})
+}
+
+// ---------------------------------------------------------------------------------------------
+// C20 - garbage collections as environment events. A collection (with the finalizers it queues) may
+// run between any two log calls; whatever the appenders keep of an opened file has to keep it open.
+// For every appender / logger kind that writes a file, both layouts and every k in 0..N: N events are
+// logged on real files, a full collection is forced after the k-th call (k = 0: right after Refresh)
+// and its finalizers are waited for; then the file is read WITHOUT stopping anything: every returned
+// call's line is there, whole.
+// ---------------------------------------------------------------------------------------------
+
+type c20GCCase struct {
+	Kind   string `json:"kind"` // file | rolling | file-logger | rolling-logger | rolling-logger+separate
+	Layout string `json:"layout"`
+	K      int    `json:"collect_after_calls"`
+}
+
+// forceGC runs full collections until a sentinel dropped just before has been finalized (finalizers run
+// on one goroutine: what the same collection queued ahead of the sentinel has run as well; one more round
+// covers objects that only became unreachable through those finalizers).
+func forceGC() {
+	for round := 0; round < 2; round++ {
+		done := make(chan struct{})
+		func() {
+			s := new([16]byte)
+			runtime.SetFinalizer(s, func(*[16]byte) { close(done) })
+		}()
+		for i := 0; i < 50; i++ {
+			runtime.GC()
+			select {
+			case <-done:
+				i = 50
+			case <-time.After(20 * time.Millisecond):
+			}
+		}
+	}
+}
+
+func init() {
+	definePart("C20", "c20/collections-between-calls", "qt", "5 file-writing appender / logger kinds x 2 layouts x a forced full collection (finalizers run) after k = 0..4 of 4 calls; files read without stopping",
+		func(tier string, yield func(c20GCCase)) {
+			for _, k := range []string{"file", "rolling", "file-logger", "rolling-logger", "rolling-logger+separate"} {
+				for _, l := range []string{"TextLayout", "JSONLayout"} {
+					for n := 0; n <= c20N; n++ {
+						yield(c20GCCase{k, l, n})
+					}
+				}
+			}
+		},
+		func(c c20GCCase) (string, []Violation, int) {
+			confReset()
+			dir := filepath.Join(c15Dir(), "c20gc")
+			os.RemoveAll(dir)
+			os.MkdirAll(dir, 0o755)
+			key := fmt.Sprintf("%s/%s", c.Kind, c.Layout)
+			var conf map[string]string
+			switch c.Kind {
+			case "file", "rolling":
+				conf = c20Conf(c.Kind, c.Layout, dir)
+			case "file-logger":
+				conf = map[string]string{"appender.unused.type": "Discard", "logger.root.type": "File", "logger.root.fileDir": dir, "logger.root.fileName": "app.log", "logger.root.layout.type": c.Layout}
+			default:
+				conf = map[string]string{"appender.unused.type": "Discard", "logger.root.type": "RollingFile", "logger.root.fileDir": dir, "logger.root.fileName": "app.log",
+					"logger.root.rotation": "h", "logger.root.maxAge": "24", "logger.root.layout.type": c.Layout, "logger.root.separate": fmt.Sprint(strings.HasSuffix(c.Kind, "+separate"))}
+			}
+			if err, pn := safeRefresh(conf); err != nil || pn != nil {
+				return "refresh-failed", []Violation{{Clause: "valid-config-rejected", Key: key, Detail: fmt.Sprintf("err=%v panic=%v (%s)", err, pn, confString(conf))}}, 1
+			}
+			if c.K == 0 {
+				forceGC()
+			}
+			var want []string
+			for i := 0; i < c20N; i++ {
+				id := fmt.Sprintf("gcline-%d-%s", i, strings.Repeat("y", 30*i))
+				if i%2 == 1 {
+					log.Error(context.Background(), tagC01, log.String("k", id))
+				} else {
+					log.Info(context.Background(), tagC01, log.String("k", id))
+				}
+				want = append(want, id)
+				if i+1 == c.K {
+					forceGC()
+				}
+			}
+			var all strings.Builder
+			ents, _ := os.ReadDir(dir)
+			for _, e := range ents {
+				b, _ := os.ReadFile(filepath.Join(dir, e.Name()))
+				all.Write(b)
+			}
+			content := all.String()
+			var v []Violation
+			for i, id := range want {
+				if strings.Count(content, id+"\"") == 0 && strings.Count(content, id+"\n") == 0 && strings.Count(content, id+"|") == 0 {
+					v = append(v, Violation{Clause: "acknowledged-line-missing", Key: key, Detail: fmt.Sprintf("a full collection ran after call %d of %d: the line of call %d (it had returned) is not in the file(s) (%d file(s), %d bytes)", c.K, c20N, i+1, len(ents), len(content))})
+				}
+			}
+			if content != "" && !strings.HasSuffix(content, "\n") {
+				v = append(v, Violation{Clause: "partial-line", Key: key, Detail: "the file ends in a partial line"})
+			}
+			safeCall(log.Destroy)
+			return fmt.Sprintf("%d files", len(ents)), v, c20N
 		})
 }
